@@ -239,6 +239,9 @@ func (m ClientState) RestrictChain(cdc codec.BinaryCodec, store sdk.KVStore, new
 		}
 		current = *tmpConsensus
 	}
+	// new is now the header of the submitted branch at height ti, the first one that is not on the current chain:
+	// it is re-pointed as well, so that the hashes below are looked up at the heights they were indexed at
+	newHashes = append(newHashes, new.Hash())
 	for i := len(newHashes) - 1; i >= 0; i-- {
 		newTmp := store.Get(EthHeaderIndexKey(newHashes[i], ti.GetRevisionHeight()))
 		if newTmp == nil {
